@@ -398,8 +398,9 @@ Proof. rewrite !prun_map. apply map_app. Qed.
 (* results of earlier calls are unaffected by later calls *)
 Theorem prun_prefix st ops later : firstn (length ops) (prun st (ops ++ later)) = prun st ops.
 Proof.
-  rewrite prun_app. rewrite <- (map_length (fun o => snd (pstep tt o)) ops), <- prun_map.
-  rewrite firstn_app, Nat.sub_diag, firstn_all. cbn [firstn]. apply app_nil_r.
+  rewrite prun_app.
+  assert (Hl : length ops = length (prun st ops)) by (rewrite prun_map; now rewrite map_length).
+  rewrite Hl, firstn_app, Nat.sub_diag, firstn_all. cbn [firstn]. apply app_nil_r.
 Qed.
 
 (* the sharing Decode has today, stated exactly: the decoded Raw is the tail of the tag *)
